@@ -217,7 +217,15 @@ class sptenmat:
         if isinstance(array, np.ndarray):
             vals = np.expand_dims(array[array.nonzero()], axis=1)
         elif sparse.issparse(array):
-            vals = np.expand_dims(array.tocoo(False).data, axis=1)
+            # Take subscripts and values from the same enumeration of the entries
+            coo = array.tocoo()
+            return ttb.sptenmat(
+                np.vstack((coo.row, coo.col)).transpose().astype(int),
+                np.expand_dims(coo.data, axis=1),
+                rdims,
+                cdims,
+                tshape,
+            )
         else:
             raise ValueError(
                 f"Expected sparse matrix or array but received: {type(array)}"
